@@ -11,7 +11,7 @@ import l1
 import l2
 import vlib
 
-MODELLED = ["SO2", "SE2", "SO3", "SE3", "SE_2_3", "R1", "R2", "R3", "R5"]          # groups with a Lean model (L1 + theorems)
+MODELLED = ["SO2", "SE2", "SO3", "SE3", "SE_2_3", "SGal3", "R1", "R2", "R3", "R5"]          # groups with a Lean model (L1 + theorems)
 ALL_GROUPS = ["SO2", "SE2", "SO3", "SE3", "SE_2_3", "SGal3", "R1", "R3", "R5"]        # groups the harness / oracle cover (L2)
 
 PROPS = {
